@@ -390,6 +390,7 @@ FINDINGS: typing.Dict[str, dict] = {
         and any(('_' + n) in diag_head(out) for n in generated_name_clashes(j))),      # `<T>_<NAME>`: the name follows the type's reference name
     'F-C06-WS-CONTROL': dict(trigger=lambda j: False, signature=r'$^'),      # configuration-level: live pairs are not swept (FLAG_FINDINGS)
     'F-C06-NS-TYPES': dict(trigger=lambda j: False, signature=r'$^'),
+    'F-C06-YAML-KEYS': dict(trigger=lambda j: False, signature=r'$^'),
     'F-C06-CPP-PADONLY': dict(
         trigger=lambda j: j.lang == 'cpp' and not j.cfg['pod'] and any(t.get('padding_only_sections') for t in j.clos),
         signature=r"unused parameter .obj."),
